@@ -137,20 +137,20 @@ def published(vec, bind):
     return w
 
 
-def replay(v, ex, bind, vectors, pid, tier, rnd, readback=False, publen=False):
+def replay(v, ex, bind, vectors, pid, tier, rnd, readback=False, publen=False, places=None, tag=""):
     """Execute TLC transitions through the real API and compare.  Returns stats."""
     cmds, meta = [], []
     skipped = 0
     if publen:
         vectors = [published(x, bind) for x in vectors]
     for vec in vectors:
-        pls = placements_for(vec, tier, rnd)
+        pls = places if places is not None else placements_for(vec, tier, rnd)
         for place, off in pls:
             c = vec_cmd(vec, bind, place, off)
             if c is None:
                 skipped += 1
                 break
-            cmds.append(c); meta.append((vec, "placement %s offset %d" % (place, off), None))
+            cmds.append(c); meta.append((vec, "%splacement %s offset %d" % (tag, place, off), None))
         if readback and vec["op"] == "set" and vec_cmd(vec, bind, "S", 0) is not None:
             # set on a persistent buffer, then read the field back through every reader
             cmds.append("N 0 %d %s" % (rnd.randrange(8), hexs(vec["pre"]))); meta.append((None, None, None))
